@@ -328,7 +328,8 @@ func boxPipeline(data []byte) string {
 			continue
 		}
 		var is []string
-		for _, lv := range []string{"", "all:1", "all:2"} {
+		// levels 0..2 through "all" and through the box's own type (the two branches of getInfoLevel)
+		for _, lv := range []string{"", "all:1", "all:2", b.Type() + ":1", "all:0," + b.Type() + ":2"} {
 			dec()
 			if err != nil {
 				break
@@ -500,6 +501,28 @@ func cmdSearch(seed uint64, n int) {
 			}
 		}
 	}
+	// minimal encodings of the registered types that no testdata file, harvested box or inflation case decodes
+	{
+		e := getEncv()
+		seeds := map[string][]byte{
+			"emeb": box("emeb"),
+			"stpp": box("stpp", make([]byte, 6), u16(1), []byte("ns\x00"), []byte("schema\x00"), []byte("mime\x00")),
+		}
+		for _, nm := range []string{"av01", "hev1", "vp08", "vp09"} {
+			seeds[nm] = box(nm, e.hdr78, e.avcC)
+		}
+		var keys []string
+		for k := range seeds {
+			keys = append(keys, k)
+		}
+		sort.Strings(keys)
+		for _, k := range keys {
+			mutantsOf("seed/"+k, seeds[k], r, 12, func(m mutant) {
+				jobs = append(jobs, job{kind: "X", cfg: "-", gen: m.gen})
+				descs = append(descs, m.desc)
+			})
+		}
+	}
 	// count-field inflation of every box type that allocates from a count or length field
 	searchCounts(r, n, &jobs, &descs)
 	// trailing index: every mfro / mfra / tfra combination under the ISM flag
@@ -525,6 +548,23 @@ func cmdSearch(seed uint64, n int) {
 			fmt.Fprintln(out, failLine(f, w, descs[i]))
 		}
 	}
+	// which registered box types were decoded at box level and printed at every level
+	reached := map[string]bool{}
+	for i, rs := range res {
+		if jobs[i].kind == "X" && strings.HasPrefix(rs, "box=ok|i=ok,ok,ok,ok,ok|") {
+			d := jobs[i].bytes()
+			if len(d) >= 8 {
+				reached[string(d[4:8])] = true
+			}
+		}
+	}
+	var missing []string
+	for _, nm := range registeredNames() {
+		if !reached[nm] {
+			missing = append(missing, fmt.Sprintf("%x", nm))
+		}
+	}
+	fmt.Fprintf(out, "INFO_REACHED\t%d\t%d\t%s\n", len(registeredNames())-len(missing), len(registeredNames()), strings.Join(missing, ","))
 	fmt.Fprintf(out, "EVALS\t%d\n", len(jobs))
 	fmt.Fprintf(out, "STATS\t%d\t%d\t%d\t%d\n", rstats.ns, rstats.n, rstats.alloc, rstats.restarts)
 }
